@@ -134,6 +134,11 @@ def run_property(pid, spec, tier, repo=None):
         lines.append('NOTE: %s %s %s: %s' % (o.rule, o.func, o.key, o.detail))
     for t in ctx.notes:
         lines.append('NOTE: %s' % t)
+    ren = [r for m in ctx.prog.modules.values() for r in getattr(m, 'alpha_renames', [])]
+    if ren:
+        ctx.notes.append('locals alpha-normalised against sa/localnames.json before analysis (%d renames): %s%s' % (
+            len(ren), '; '.join(ren[:12]), ' ...' if len(ren) > 12 else ''))
+        lines.append('NOTE: %s' % ctx.notes[-1][:400])
     for o, k in knownhits:
         lines.append('KNOWN-FINDING: property=%s %s %s [%s] %s -- %s' % (
             pid, o.rule, o.func, o.key, o.site, k.get('what_fails', '')))
